@@ -87,6 +87,11 @@ def resize_array(*a, **k):
     return f(*a, **k)
 
 
+def apply_on_boundary(*a, **k):
+    from odl.util.numerics import apply_on_boundary as f
+    return f(*a, **k)
+
+
 def err_kind(e):
     """Map an exception of the real code to the model's error vocabulary."""
     s = str(e)
@@ -1353,6 +1358,10 @@ def run_derived_case(ctx, case):
                 answers.append('ok r=' + fl(iy.ravel().tolist()) if st_iy == 'ok' else st_iy)
                 lines.append('opinv2 {} data={}'.format(head, fl(x.ravel().tolist())))
                 answers.append('ok r=' + fl(back.ravel().tolist()) if st_b == 'ok' else st_b)
+        # ---------------- axes (round 5)
+        if tuple(op.axes) != tuple(i for i in range(ndim) if n[i] != m[i]):
+            bad('axes', 'op.axes = {} for {} -> {}'.format(op.axes, n, m))
+        facts['axes'] = len(op.axes)
         # ---------------- derivative
         facts['nonlinear'] = nonlinear
         if bool(op.is_linear) != (not nonlinear):
@@ -1380,9 +1389,9 @@ def run_derived_case(ctx, case):
         st_d1, d1 = guarded(lambda: d(dom.element(x)))
         if small:
             lines.append('opderiv {} data={}'.format(head, fl(x.ravel().tolist())))
-            tail = 'same={} c={} lin={} oplin={}'.format(
+            tail = 'same={} c={} lin={} oplin={} axes={}'.format(
                 int(d is op), fs(core.frac(float(np.real(d.pad_const)))), int(bool(d.is_linear)),
-                int(bool(op.is_linear)))
+                int(bool(op.is_linear)), fl(list(op.axes)))
             answers.append('ok {} r={}'.format(tail, fl(d1.ravel().tolist())) if st_d1 == 'ok'
                            else '{} {}'.format(st_d1, tail))
         # ---------------- adjoint (raw: default weighting, no boundary fractions)
@@ -1451,6 +1460,9 @@ def derived_stream(ctx, deep=False, model=True):
             ctx.hit('derived/derivative/linear/' + case['mode'])
         if any(any(a['bdry']) for a in case['axes']):
             ctx.hit('derived/nodes-on-bdry')
+        if 'axes' in facts:
+            ctx.hit('derived/axes/' + ('none' if facts['axes'] == 0 else
+                                       'all' if facts['axes'] == len(case['axes']) else 'some'))
         all_lines += lines
         all_answers += answers
         owners += [case] * len(lines)
@@ -1605,6 +1617,336 @@ def tolerance_stream(ctx, deep=False, model=True):
             if impl != ans:
                 ctx.disagree({'kind': 'offsptol', 'line': line, 'case': case}, impl, ans,
                              stream='_offset_from_spaces with np.around/np.isclose')
+
+
+# ---------------------------------------------------------------------------
+# BOUNDARY (round 5): apply_on_boundary with all its options, _scale_bdry_cells, the private
+# helpers on the 'constant' mode, _resize_discr's nodes_on_bdry forms, _inner_weights fallback.
+# model: applyOnBoundary / scaleBdryCells / bdryFracProd (ops aob, scalebdry);
+# theorems: C16.boundary_interior_untouched, C16.scale_bdry_cells_eq_fractions
+
+def boundary_cases(ctx, count):
+    rng = ctx.rng
+    for _ in range(count):
+        ndim = rng.choice([1, 2, 2, 3])
+        shape = [rng.choice([1, 2, 3, 3, 4]) for _ in range(ndim)]
+        order = list(range(ndim))
+        order_kind = rng.choice(['default', 'default', 'permuted', 'negative'])
+        if order_kind != 'default':
+            rng.shuffle(order)
+        func_kind = rng.choice(['single', 'sequence', 'pairs', 'pairs', 'with-none'])
+        which_kind = rng.choice(['none', 'none', 'bools', 'pairs', 'mixed'])
+        steps = []
+        single = (rng.choice([2, 3, -1]), rng.choice([0, 1, -2]))
+        for i in range(ndim):
+            f_l = (rng.choice([2, 3, -1, 5]), rng.choice([0, 1, -2]))
+            f_r = (rng.choice([2, 3, -1, 7]), rng.choice([0, 1, 4]))
+            if func_kind == 'single':
+                f_l = f_r = single
+            elif func_kind == 'sequence':
+                f_r = f_l
+            elif func_kind == 'with-none':
+                k_ = rng.choice(['l', 'r', 'both', 'no'])
+                f_l = None if k_ in ('l', 'both') else f_l
+                f_r = None if k_ in ('r', 'both') else f_r
+                if k_ == 'both' and rng.random() < 0.5:
+                    f_l = f_r = 'axis-none'
+            if which_kind == 'none':
+                w = (True, True)
+            elif which_kind == 'bools':
+                w = rng.choice([True, True, False])
+            elif which_kind == 'pairs':
+                w = (rng.random() < 0.6, rng.random() < 0.6)
+            else:
+                w = rng.choice([True, False, (True, False), (False, True)])
+            steps.append(dict(fl=f_l, fr=f_r, which=w))
+        yield dict(kind='boundary', shape=shape, order=order, order_kind=order_kind,
+                   func_kind=func_kind, which_kind=which_kind, steps=steps,
+                   once=rng.random() < 0.5, out=rng.choice(['none', 'fresh', 'same']),
+                   vseed=rng.getrandbits(32))
+
+
+def _aff(f):
+    a, b = f
+    return lambda v: a * v + b
+
+
+def run_boundary_case(ctx, case):
+    problems = []
+    shape, ndim = tuple(case['shape']), len(case['shape'])
+    r = random.Random(case['vseed'])
+    arr = rand_data(r, shape, 'int64')
+    arr0 = arr.copy()
+    steps = case['steps']
+    # arguments in the form the case asks for
+    if case['func_kind'] == 'single':
+        func = _aff(steps[0]['fl'])
+    else:
+        func = []
+        for st in steps:
+            if st['fl'] == 'axis-none':
+                func.append(None)
+            elif case['func_kind'] == 'sequence':
+                func.append(_aff(st['fl']))
+            else:
+                func.append((None if st['fl'] is None else _aff(st['fl']),
+                             None if st['fr'] is None else _aff(st['fr'])))
+    kw = dict(only_once=case['once'])
+    if case['which_kind'] != 'none':
+        kw['which_boundaries'] = [tuple(st['which']) if isinstance(st['which'], (list, tuple))
+                                  else st['which'] for st in steps]
+    if case['order_kind'] != 'default':
+        kw['axis_order'] = [a - ndim if case['order_kind'] == 'negative' else a
+                            for a in case['order']]
+    out = None
+    if case['out'] == 'fresh':
+        out = np.full(shape, 77, dtype='int64')
+        kw['out'] = out
+    elif case['out'] == 'same':
+        out = arr
+        kw['out'] = arr
+    try:
+        res = apply_on_boundary(arr, func, **kw)
+    except Exception as e:  # noqa
+        return [('exception', 'apply_on_boundary raises {}: {}'.format(
+            type(e).__name__, str(e)[:160]))], [], []
+    if out is not None and res is not out:
+        problems.append(('out', 'the result is not the `out` array'))
+    if case['out'] != 'same' and ilist(arr) != ilist(arr0):
+        problems.append(('input-modified', 'the input array was modified'))
+    # effective per-step functions (None = skipped side)
+    eff = []
+    for i, st in enumerate(steps):
+        w = st['which']
+        wl, wr = (w if isinstance(w, (list, tuple)) else (w, w))
+        f_l = None if st['fl'] in (None, 'axis-none') or not wl else tuple(st['fl'])
+        f_r = None if st['fr'] in (None, 'axis-none') or not wr else tuple(st['fr'])
+        eff.append((case['order'][i], f_l, f_r))
+    # ORACLE (independent of the model): element by element, "first come, first served"
+    exp = np.empty(shape, dtype=object)
+    for idx in itertools.product(*[range(k) for k in shape]):
+        v = int(arr0[idx])
+        done = {}                                   # axis -> (left processed, right processed)
+        for ax, f_l, f_r in eff:
+            live = True
+            if case['once']:
+                for a2, (pl, pr) in done.items():
+                    if a2 != ax and ((pl and idx[a2] == 0) or (pr and idx[a2] == shape[a2] - 1)):
+                        live = False
+            if live and f_l is not None and idx[ax] == 0:
+                v = f_l[0] * v + f_l[1]
+            if live and f_r is not None and idx[ax] == shape[ax] - 1:
+                v = f_r[0] * v + f_r[1]
+            done[ax] = (f_l is not None, f_r is not None)
+        exp[idx] = v
+    if [int(v) for v in np.asarray(res).ravel()] != [int(v) for v in exp.ravel()]:
+        problems.append(('value', 'apply_on_boundary(shape {}, only_once={}, ...) = {} but the '
+                         'documented first-come-first-served rule gives {}'.format(
+                             shape, case['once'], np.asarray(res).ravel().tolist()[:10],
+                             [int(v) for v in exp.ravel()][:10])))
+    interior = [idx for idx in itertools.product(*[range(k) for k in shape])
+                if all(0 < i < k - 1 for i, k in zip(idx, shape))]
+    if any(int(np.asarray(res)[idx]) != int(arr0[idx]) for idx in interior):
+        problems.append(('interior', 'an interior entry was changed'))
+    line = ('aob once={} shape={} ax={} hl={} la={} lb={} hr={} ra={} rb={} data={}'.format(
+        int(case['once']), fl(shape), fl([e[0] for e in eff]),
+        fl([int(e[1] is not None) for e in eff]), fl([(e[1] or (0, 0))[0] for e in eff]),
+        fl([(e[1] or (0, 0))[1] for e in eff]), fl([int(e[2] is not None) for e in eff]),
+        fl([(e[2] or (0, 0))[0] for e in eff]), fl([(e[2] or (0, 0))[1] for e in eff]),
+        fl(arr0.ravel().tolist())))
+    return problems, [line], ['ok r=' + fl([int(v) for v in np.asarray(res).ravel()])]
+
+
+def scale_bdry_checks(ctx):
+    """_scale_bdry_cells on real spaces with nodes on the boundary vs scaleBdryCells/bdryFracProd;
+    oracle: x.inner(y) of the space == cell volume * sum(scaled x * conj y)."""
+    import odl
+    from odl.discr.discr_ops import _scale_bdry_cells
+    lines, answers = [], []
+    rng = ctx.rng
+    for _ in range(30 if ctx.quick else 200):
+        ndim = rng.choice([1, 2, 3])
+        shape = [rng.choice([1, 2, 3, 4]) for _ in range(ndim)]
+        flags = [rng.choice([(True, True), (True, False), (False, True), (False, False)])
+                 if k >= 2 else (False, False) for k in shape]
+        if not any(any(f) for f in flags):
+            k_ = rng.randrange(ndim)
+            shape[k_] = max(shape[k_], 2)
+            flags[k_] = (True, False)
+        inverse = rng.random() < 0.4
+        try:
+            sp = odl.uniform_discr([0] * ndim, [float(k) - 0.5 * (f[0] + f[1])
+                                                for k, f in zip(shape, flags)], shape,
+                                   nodes_on_bdry=flags if ndim > 1 else flags[0])
+            a = rand_data(random.Random(rng.getrandbits(32)), tuple(shape), 'float64') * 4
+            res = _scale_bdry_cells(a.copy(), sp, inverse=inverse)
+            fr = [(core.frac(l_), core.frac(r_)) for l_, r_ in sp.partition.boundary_cell_fractions]
+        except Exception as e:  # noqa
+            ctx.violation('boundary scale-bdry-cells exception', '{}: {}'.format(
+                type(e).__name__, str(e)[:200]), {'kind': 'boundary-scale'})
+            continue
+        if inverse:
+            fr = [(1 / l_, 1 / r_) for l_, r_ in fr]
+        else:
+            b = rand_data(random.Random(rng.getrandbits(32)), tuple(shape), 'float64')
+            lhs = core.frac(float(sp.element(a).inner(sp.element(b))))
+            rhs = core.frac(float(sp.cell_volume)) * sum(
+                core.frac(float(u)) * core.frac(float(v)) for u, v in zip(res.ravel(), b.ravel()))
+            if lhs != rhs:
+                ctx.violation('boundary scale-bdry-cells inner ndim={}'.format(ndim),
+                              'space.inner(a, b) = {} but cell_volume * sum(_scale_bdry_cells(a) '
+                              '* b) = {}'.format(lhs, rhs), {'kind': 'boundary-scale'})
+        ctx.case(('scalebdry', ndim, inverse, tuple(flags)), None)
+        ctx.hit('boundary/scale-bdry-cells/' + ('inverse' if inverse else 'forward'))
+        lines.append('scalebdry shape={} fl={} fr={} data={}'.format(
+            fl(shape), fl([f[0] for f in fr]), fl([f[1] for f in fr]), fl(a.ravel().tolist())))
+        txt = fl(res.ravel().tolist())
+        answers.append('ok r={} w={}'.format(txt, txt))
+    return lines, answers
+
+
+def helper_constant_checks(ctx):
+    """The private helpers on the mode they are never called with by resize_array: constant."""
+    from odl.util import numerics
+    rng = ctx.rng
+    for _ in range(10):
+        n, extra, off = rng.randint(1, 4), rng.randint(1, 3), 0
+        off = rng.randint(0, extra)
+        lhs = np.arange(float(n + extra))
+        rhs = np.arange(float(n))
+        keep = lhs.copy()
+        try:
+            ret = numerics._apply_padding(lhs, rhs, [off], 'constant', rng.choice(DIRS))
+            sl, sr = numerics._padding_slices_inner(lhs, rhs, 0, [off], 'constant')
+        except Exception as e:  # noqa
+            ctx.violation('helpers constant-mode exception', '{}: {}'.format(
+                type(e).__name__, str(e)[:200]), {'kind': 'helpers'})
+            continue
+        if ret is not None or ilist(lhs) != ilist(keep):
+            ctx.violation('helpers constant-mode _apply_padding', '_apply_padding(..., "constant") '
+                          'changed the array or returned a value', {'kind': 'helpers'})
+        if len(lhs[sl]) != 0 or len(lhs[sr]) != 0:
+            ctx.violation('helpers constant-mode _padding_slices_inner', 'inner slices for '
+                          '"constant" select entries: {} {}'.format(sl, sr), {'kind': 'helpers'})
+        ctx.hit('helpers/constant-mode')
+
+
+def bdry_forms_checks(ctx):
+    """_resize_discr: every accepted form of discr_kwargs['nodes_on_bdry']."""
+    import odl
+    forms2 = [('scalar', True, [(True, True), (True, True)]),
+              ('per-axis-bools', [True, False], [(True, True), (False, False)]),
+              ('mixed', [False, (True, False)], [(False, False), (True, False)]),
+              ('pairs', [(False, True), (True, True)], [(False, True), (True, True)])]
+    forms1 = [('1d-pair', (True, False), [(True, False)]), ('1d-scalar', True, [(True, True)]),
+              ('1d-nested', [(False, True)], [(False, True)])]
+    for name, nob, want in forms2 + forms1:
+        nd = len(want)
+        try:
+            dom = odl.uniform_discr([0] * nd, [1] * nd, [4, 2][:nd])
+            op = odl.ResizingOperator(dom, ran_shp=[6, 3][:nd], offset=[1, 0][:nd],
+                                      pad_mode='order0', discr_kwargs={'nodes_on_bdry': nob})
+            ran = op.range
+            got = [tuple(bool(b) for b in f) for f in ran.partition.nodes_on_bdry_byaxis]
+            key = 'boundary nodes_on_bdry form=' + name
+            if got != want:
+                ctx.violation(key + ' flags', 'nodes_on_bdry={!r} gives {} in the range, expected '
+                              '{}'.format(nob, got, want), {'kind': 'bdry-forms', 'name': name})
+            if [core.frac(v) for v in ran.cell_sides] != [core.frac(v) for v in dom.cell_sides]:
+                ctx.violation(key + ' cell-sides', 'cell sides changed', {'kind': 'bdry-forms',
+                                                                           'name': name})
+            if [int(o) for o in op.offset] != [1, 0][:nd]:
+                ctx.violation(key + ' offset', 'offset {}'.format(op.offset),
+                              {'kind': 'bdry-forms', 'name': name})
+            x = dom.element(np.arange(float(np.prod(dom.shape))).reshape(dom.shape))
+            y = ran.one()
+            if op(x).inner(y) != x.inner(op.adjoint(y)):
+                ctx.violation(key + ' adjoint-identity', '<Ax, y> != <x, A*y>',
+                              {'kind': 'bdry-forms', 'name': name})
+        except Exception as e:  # noqa
+            ctx.violation('boundary nodes_on_bdry form={} exception'.format(name), '{}: {}'.format(
+                type(e).__name__, str(e)[:200]), {'kind': 'bdry-forms', 'name': name})
+        ctx.case(('bdry-form', name), None)
+        ctx.hit('boundary/nodes_on_bdry-form/' + name)
+
+
+def custom_inner_checks(ctx):
+    """_inner_weights fallback (weighting with neither `const` nor `array`): custom inner
+    products.  The adjoint treats such a weighting as 1.0."""
+    import odl
+    from odl.space.npy_tensors import NumpyTensorSpaceCustomInner
+    for scale, name in ((1.0, 'plain'), (2.0, 'scaled')):
+        for mode in MODES:
+            for n, m, rlo, rhi in ((4, 6, -0.25, 1.25), (4, 2, 0.25, 0.75)):
+                try:
+                    w = NumpyTensorSpaceCustomInner(
+                        lambda a, b, s_=scale: s_ * np.vdot(b.data, a.data))
+                    w1 = NumpyTensorSpaceCustomInner(lambda a, b: np.vdot(b.data, a.data))
+                    dom = odl.uniform_discr(0, 1, n, weighting=w)
+                    ran = odl.uniform_discr(rlo, rhi, m, weighting=w1)
+                    op = odl.ResizingOperator(dom, ran, pad_mode=mode)
+                    r = random.Random(n * 31 + m)
+                    x = dom.element(rand_data(r, (n,), 'float64'))
+                    y = ran.element(rand_data(r, (m,), 'float64'))
+                    lhs, rhs = op(x).inner(y), x.inner(op.adjoint(y))
+                except Exception as e:  # noqa
+                    ctx.violation('custom-inner {} exception mode={}'.format(name, mode),
+                                  '{}: {}'.format(type(e).__name__, str(e)[:200]),
+                                  {'kind': 'custom-inner', 'name': name, 'mode': mode})
+                    continue
+                ctx.case(('custom-inner', name, mode, n < m), None)
+                ctx.hit('boundary/custom-inner/' + name)
+                if lhs != rhs:
+                    ctx.violation(
+                        'custom-inner {} adjoint-identity mode={} axis={}'.format(
+                            name, mode, 'grow' if m > n else 'shrink'),
+                        '<Ax, y>_range = {} but <x, A*y>_domain = {} (domain inner product = {} * '
+                        'vdot, range inner product = vdot, both NumpyTensorSpaceCustomInner)'
+                        .format(lhs, rhs, scale),
+                        {'kind': 'custom-inner', 'name': name, 'mode': mode, 'n': n, 'm': m})
+
+
+def boundary_stream(ctx, deep=False, model=True):
+    count = 200 if (ctx.quick and not deep) else 2000
+    all_lines, all_answers, owners = [], [], []
+    for case in boundary_cases(ctx, count):
+        problems, lines, answers = run_boundary_case(ctx, case)
+        seen = set()
+        for tag, text in problems:
+            if tag not in seen:
+                seen.add(tag)
+                ctx.violation('apply_on_boundary {} ndim={} only_once={} func={} which={} '
+                              'axis_order={} out={}'.format(
+                                  tag, len(case['shape']), case['once'], case['func_kind'],
+                                  case['which_kind'], case['order_kind'], case['out']),
+                              text[:500], dict(case, tag=tag))
+        ctx.case(('boundary', len(case['shape']), case['once'], case['func_kind'],
+                  case['which_kind'], case['order_kind'], case['out'],
+                  1 in case['shape']),
+                 sample={'case': case} if ctx.rng.random() < 0.01 else None)
+        for k_ in ('func_kind', 'which_kind', 'order_kind', 'out'):
+            ctx.hit('boundary/{}/{}'.format(k_.replace('_kind', ''), case[k_]))
+        ctx.hit('boundary/only_once=' + str(case['once']))
+        if 1 in case['shape']:
+            ctx.hit('boundary/one-entry-axis')
+        all_lines += lines
+        all_answers += answers
+        owners += [case] * len(lines)
+    l2, a2 = scale_bdry_checks(ctx)
+    all_lines += l2
+    all_answers += a2
+    owners += [{'kind': 'boundary-scale'}] * len(l2)
+    helper_constant_checks(ctx)
+    bdry_forms_checks(ctx)
+    custom_inner_checks(ctx)
+    if model and all_lines:
+        outs = core.run_driver('C16', all_lines)
+        for line, impl, ans, case in zip(all_lines, all_answers, outs, owners):
+            kind = line.split(' ', 1)[0]
+            ctx.hit(kind + '-model')
+            if impl != ans:
+                ctx.disagree({'kind': kind, 'line': line, 'case': case}, impl, ans,
+                             stream='apply_on_boundary / _scale_bdry_cells')
 
 
 # ---------------------------------------------------------------------------
@@ -1803,6 +2145,20 @@ def validation_cases():
         ('out with another number of axes', 'ra/out-ndim', ValueError,
          lambda ok: lambda: resize_array(x24(), (3, 4) if ok else (3, 4, 1),
                                          out=np.zeros((3, 4) if ok else (3, 4, 1)))),
+        # ---- round 5: _resize_discr / apply_on_boundary argument checks
+        ('discr_kwargs nodes_on_bdry of the wrong length', 'op/nodes_on_bdry-length', ValueError,
+         lambda ok: ro(d2(), ran_shp=(6, 2), discr_kwargs={
+             'nodes_on_bdry': [(True, True), (False, True)] if ok else [True, False, True]})),
+        ('apply_on_boundary: function sequence of the wrong length', 'aob/func-length',
+         ValueError,
+         lambda ok: lambda: apply_on_boundary(x24(), [None, lambda v: v] if ok else
+                                              [lambda v: v])),
+        ('apply_on_boundary: which_boundaries of the wrong length', 'aob/which-length', ValueError,
+         lambda ok: lambda: apply_on_boundary(x24(), lambda v: v, which_boundaries=
+                                              [True, False] if ok else [True])),
+        ('apply_on_boundary: axis_order of the wrong length', 'aob/axis_order-length', ValueError,
+         lambda ok: lambda: apply_on_boundary(x24(), lambda v: v, axis_order=
+                                              [1, 0] if ok else [1, 0, 0])),
     ]
     return cases
 
@@ -2319,6 +2675,7 @@ def run(ctx):
     operator_stream(ctx)
     derived_stream(ctx)
     tolerance_stream(ctx)
+    boundary_stream(ctx)
     ownership_stream(ctx)
     validation_stream(ctx)
     padconst_stream(ctx)
@@ -2355,6 +2712,18 @@ def run(ctx):
                  'tolerance/shrink/small/accepted', 'tolerance/shrink/small/refused:shift-not-multiple',
                  'tolerance/same/tiny/accepted', 'tolerance/same/small/refused:shifted-unchanged',
                  'tolerance/grow/tiny/refused:not-contained', 'offsptol-model']
+    expected += ['boundary/func/' + k_ for k_ in ('single', 'sequence', 'pairs', 'with-none')]
+    expected += ['boundary/which/' + k_ for k_ in ('none', 'bools', 'pairs', 'mixed')]
+    expected += ['boundary/order/' + k_ for k_ in ('default', 'permuted', 'negative')]
+    expected += ['boundary/out/' + k_ for k_ in ('none', 'fresh', 'same')]
+    expected += ['boundary/only_once=True', 'boundary/only_once=False', 'boundary/one-entry-axis',
+                 'boundary/scale-bdry-cells/forward', 'boundary/scale-bdry-cells/inverse',
+                 'helpers/constant-mode', 'boundary/custom-inner/plain',
+                 'boundary/custom-inner/scaled', 'aob-model', 'scalebdry-model',
+                 'derived/axes/none', 'derived/axes/some', 'derived/axes/all']
+    expected += ['boundary/nodes_on_bdry-form/' + k_ for k_ in
+                 ('scalar', 'per-axis-bools', 'mixed', 'pairs', '1d-pair', '1d-scalar',
+                  '1d-nested')]
     expected_err = ['err:offset', 'err:padconst-adjoint', 'err:order0-empty', 'err:order1-short',
                     'err:periodic-too-long', 'err:symmetric-too-long']
     unhit = [b for b in expected if not ctx.branches.get(b)] + \
@@ -2375,6 +2744,7 @@ def search(ctx, broken):
         operator_stream(ctx, deep=True, model=False)
         derived_stream(ctx, deep=True, model=False)
         tolerance_stream(ctx, deep=True, model=False)
+        boundary_stream(ctx, deep=True, model=False)
         history_stream(ctx, deep=True, model=False)
         padconst_stream(ctx, deep=True, model=False)
         ownership_stream(ctx)
@@ -2403,6 +2773,17 @@ def replay(ctx, case):
         problems, _, _, _ = run_derived_case(ctx, case)
         problems = [t for tag, t in problems if case.get('tag') in (None, tag)]
         return '; '.join(problems) if problems else None
+    if case.get('kind') == 'boundary':
+        problems, _, _ = run_boundary_case(ctx, case)
+        problems = [t for tag, t in problems if case.get('tag') in (None, tag)]
+        return '; '.join(problems) if problems else None
+    if case.get('kind') in ('boundary-scale', 'helpers', 'bdry-forms', 'custom-inner'):
+        sub = core.Ctx(ctx.pid, ctx.tier, ctx.seed)
+        {'boundary-scale': scale_bdry_checks, 'helpers': helper_constant_checks,
+         'bdry-forms': bdry_forms_checks, 'custom-inner': custom_inner_checks}[case['kind']](sub)
+        hits = [v for v in sub.violations
+                if all(v['replay'].get(k) == case.get(k) for k in ('kind', 'name', 'mode', 'n'))]
+        return hits[0]['what'] if hits else None
     if case.get('kind') == 'tolerance':
         problems, _, _, _ = run_tolerance_case(ctx, case)
         problems = [t for tag, t in problems if case.get('tag') in (None, tag)]
